@@ -3,6 +3,7 @@ package file
 //verif:property C11
 //verif:pkg lib/file
 //verif:harness VerifC11NoLeftovers mode=bv tier=quick split=6
+//verif:harness VerifC11Contention mode=bv tier=quick split=8
 
 import (
 	"strings"
@@ -21,8 +22,14 @@ func VerifC11NoLeftovers() {
 	verifFaults(verifBound(1, 2))
 	kinds := [2]int{verifChoice("open", 4), verifChoice("open", 4)} // 0 none 1 read 2 update 3 create
 	names := [2]string{"a.csv", "b.csv"}
+	// the second table may instead be named like the first in another letter case: a different file
+	// on a case-sensitive file system, the same key in the container
+	alias := verifChoice("alias", 2) == 1
 	var hs [2]*Handler
 	committed := [2]bool{}
+	if alias {
+		names[1] = "A.CSV"
+	}
 	for i := 0; i < 2; i++ {
 		var err error
 		switch kinds[i] {
@@ -32,6 +39,9 @@ func VerifC11NoLeftovers() {
 			hs[i], err = c.CreateHandlerForUpdate(ctx, names[i], time.Second, time.Millisecond)
 		case 3:
 			names[i] = "new" + names[i]
+			if i == 1 && alias {
+				names[i] = "NEWA.CSV"
+			}
 			hs[i], err = c.CreateHandlerForCreate(names[i])
 		}
 		if err != nil {
@@ -92,15 +102,67 @@ func VerifC11NoLeftovers() {
 				want = "B-OLD"
 			}
 			verifAssert("a table that was only read is unchanged", verifFileRead([2]string{"a.csv", "b.csv"}[i]) == want)
+			if i == 1 && alias {
+				continue
+			}
 		}
 		if kinds[i] == 2 && end != 0 {
 			want := "A-OLD"
 			if i == 1 {
 				want = "B-OLD"
 			}
+			if i == 1 && alias {
+				continue // A.CSV does not exist: nothing was opened
+			}
 			verifAssert("an update that was closed without commit leaves the table unchanged", verifFileRead(names[i]) == want)
 		}
 	}
+	verifObserve("leftovers", int64(verifControlFilesLeft()))
+	verifReach("end")
+}
+
+// A writer and a reader process contend for one table (every interleaving of their file-system
+// operations with at most 2 preemptions, thorough 3; every timeout instant); each ends by commit,
+// close or a lock-timeout error.  When both are gone no lock, rlock or temp file is left and the
+// table holds the old or the committed contents.
+func VerifC11Contention() {
+	verifFileWrite("t.csv", "OLD")
+	verifPreemptions(verifBound(2, 3))
+	writer := func() {
+		ctx := verifNewCtx(false)
+		c := NewContainer()
+		h, err := c.CreateHandlerForUpdate(ctx, "t.csv", time.Second, time.Millisecond)
+		if err != nil {
+			_ = c.CloseAllWithErrors()
+			return
+		}
+		if fp, e := h.FileForUpdate(); e == nil {
+			_, _ = fp.Write([]byte("NEW"))
+		}
+		if verifChoice("writer-ends", 2) == 0 {
+			_ = c.Commit(h)
+		} else {
+			_ = c.Close(h)
+		}
+		_ = c.CloseAllWithErrors()
+	}
+	reader := func() {
+		ctx := verifNewCtx(false)
+		c := NewContainer()
+		h, err := c.CreateHandlerForRead(ctx, "t.csv", time.Second, time.Millisecond)
+		if err == nil {
+			_ = c.Close(h)
+		}
+		_ = c.CloseAllWithErrors()
+	}
+	verifSchedules(true)
+	verifSpawn(writer)
+	verifSpawn(reader)
+	verifJoin()
+	verifSchedules(false)
+	verifAssert("no lock, rlock or temp file is left by either process", verifControlFilesLeft() == 0)
+	got := verifFileRead("t.csv")
+	verifAssert("the table holds the old or the committed contents", got == "OLD" || got == "NEW")
 	verifObserve("leftovers", int64(verifControlFilesLeft()))
 	verifReach("end")
 }
